@@ -76,7 +76,9 @@ Print Assumptions C10_pool_semaphore_bounded.
 (* slots are given back once per first result of an unresolved job and once per reaped worker (facts computed from the AST of /repo/billiard/pool.py on this run) *)
 Theorem C10_pool_code_shape :
   G_pool_shape.slot_released_only_for_unresolved = true /\
-  G_pool_shape.one_slot_per_reaped_worker = true.
+  G_pool_shape.one_slot_per_reaped_worker = true /\
+  G_pool_shape.unsent_apply_gives_slot_back_and_leaves_cache = true /\
+  G_pool_shape.unsendable_apply_without_threads_leaves_nothing = true.
 Proof. repeat split; reflexivity. Qed.
 Print Assumptions C10_pool_code_shape.
 
